@@ -117,3 +117,27 @@ pub enum CbBytes {
     #[regex(b"d[a-z\x80]*", decide_filter_b)] Filt,
     #[token(b" ")] Sp,
 }
+
+// callbacks whose path merely ends in `skip` (they are ordinary user callbacks, not logos::skip)
+pub mod named {
+    pub mod boolish { use logos::{Lexer, Logos}; pub fn skip<'s, T: Logos<'s, Source = str>>(lex: &mut Lexer<'s, T>) -> bool { super::super::decide_bool(lex) } }
+    pub mod filt { use logos::{Filter, Lexer, Logos}; pub fn skip<'s, T: Logos<'s, Source = str>>(lex: &mut Lexer<'s, T>) -> Filter<u32> { super::super::decide_filter(lex) } }
+    pub mod fr { use logos::{FilterResult, Lexer, Logos}; pub fn skip<'s, T: Logos<'s, Source = str>>(lex: &mut Lexer<'s, T>) -> FilterResult<u32, super::super::LexErr> { super::super::decide_filterresult(lex) } }
+    pub mod valueish { use logos::{Lexer, Logos}; pub fn skip<'s, T: Logos<'s, Source = str>>(lex: &mut Lexer<'s, T>) -> u32 { super::super::decide_value(lex) } }
+    pub mod bumping { use logos::{Lexer, Logos}; pub fn skip<'s, T: Logos<'s, Source = str>>(lex: &mut Lexer<'s, T>) -> u32 { super::super::decide_bump(lex) } }
+    pub mod unitish { use logos::{Lexer, Logos}; pub fn skip<'s, T: Logos<'s, Source = str>>(lex: &mut Lexer<'s, T>) { super::super::decide_skipcb_unit(lex) } }
+    pub mod resultish { use logos::{Lexer, Logos}; pub fn skip<'s, T: Logos<'s, Source = str>>(lex: &mut Lexer<'s, T>) -> Result<(), super::super::LexErr> { super::super::decide_skipcb_result(lex) } }
+}
+
+#[derive(Logos, Debug, PartialEq, Clone)]
+#[logos(error = LexErr)]
+#[logos(skip("x[a-z]*", named::unitish::skip))]
+#[logos(skip("y[a-z]*", named::resultish::skip))]
+pub enum CbNamedSkip {
+    #[regex("a[a-z]*", named::boolish::skip)] Bool,
+    #[regex("d[a-z]*", named::filt::skip)] Filt(u32),
+    #[regex("e[a-z]*", named::fr::skip)] FiltRes(u32),
+    #[regex("i[a-z]*", named::valueish::skip)] Val(u32),
+    #[regex("[0-9]+", named::bumping::skip)] Bump(u32),
+    #[token(" ")] Sp,
+}
